@@ -5,6 +5,7 @@ import NurbsVerif.Model.Grid
 import NurbsVerif.Model.BasisDers
 import NurbsVerif.Model.Length
 import NurbsVerif.Model.SpanR
+import NurbsVerif.Model.SpanRGrid
 import NurbsVerif.Driver.Parse
 /- handlers for span / basis / knot vector / evaluation / derivative ops (C01, C02, C03, C17, C18) -/
 namespace Drv
@@ -29,7 +30,8 @@ def okKv (p n : Nat) (U : List Rat) : Bool := decide (1 ≤ p) && decide (p + 1 
     about them assume `KnotsOk`: non-empty last span), and evaluating on an empty span divides by zero (`x / 0 = 0` in
     Lean): the ops running them answer ERR instead of printing such a value.  The transcriptions of the repaired searches
     are `findSpanLinearR` / `findSpanBinR` (`Model/SpanR.lean`): ops `span linr`, `span binr`, `cevalr`, `sevalr`, `vevalr`,
-    without this guard. -/
+    and (`Model/SpanRGrid.lean`) `clistr`, `cgridr`, `sgridr`, `vgridr`, `cdersr`, `sdersr`, `cders32r`, `sders36r`, without
+    this guard. -/
 def emptySpanAt (p n : Nat) (U : List Rat) (u : Rat) : Bool :=
   let k := findSpanLinear p (fn U) n u
   fn U k == fn U (k + 1)
@@ -44,6 +46,11 @@ def inDom (p n : Nat) (U : List Rat) (u : Rat) : Bool :=
     `U_p = U_n` every span of the domain is empty and the code's A2.2 raises ZeroDivisionError: ERR) -/
 def inDomR (p n : Nat) (U : List Rat) (u : Rat) : Bool :=
   decide (fn U p ≤ u) && decide (u ≤ fn U n) && decide (fn U p < fn U n)
+
+/-- guard of the R grid ops (`cgridr`, `sgridr`, `vgridr`): a non-degenerate domain `U_p < U_n`; every `linspace` sample of
+    `[U_p, U_n]` then lies in the closed domain (`C01.sampled_params_in_domain`) and the repaired search finds a non-empty
+    span for it – NO `lastSpanEmpty` guard -/
+def domR (p n : Nat) (U : List Rat) : Bool := decide (fn U p < fn U n)
 
 /-- a sampled grid always contains the domain end `U_n`: F-01b guard for the grid ops -/
 def lastSpanEmpty (p n : Nat) (U : List Rat) : Bool := emptySpanAt p n U (fn U n)
@@ -159,6 +166,19 @@ def handleBasic : List String → Option String
       if !(okKv pu su Uu && okKv pv sv Uv && inDom pu su Uu u && inDom pv sv Uv v && P.length == su * sv) then return "ERR"
       let S := surfaceDersAt pu pv (fn Uu) (fn Uv) sv P (findSpanLinear pu (fn Uu) su u) (findSpanLinear pv (fn Uv) sv v) u v ord (tri == "1")
       return showPts2 (if rat == "1" then ratSurfaceDers S ord else S)
+  -- derivatives on the span the REPAIRED search finds (`curveDersR` / `surfaceDersR`, Model/SpanRGrid.lean)
+  | ["cdersr", rat, p, us, ps, u, ord] => do
+      let p ← p.toNat?; let U ← parseList us; let P ← parsePts ps; let u ← parseRat u; let ord ← ord.toNat?
+      if !(okKv p P.length U && inDomR p P.length U u) then return "ERR"
+      let CK := curveDersR p (fn U) P u ord
+      return showPts (if rat == "1" then ratCurveDers CK else CK)
+  | ["sdersr", rat, tri, pu, pv, uus, uvs, su, sv, ps, u, v, ord] => do
+      let pu ← pu.toNat?; let pv ← pv.toNat?; let Uu ← parseList uus; let Uv ← parseList uvs
+      let su ← su.toNat?; let sv ← sv.toNat?; let P ← parsePts ps; let u ← parseRat u; let v ← parseRat v
+      let ord ← ord.toNat?
+      if !(okKv pu su Uu && okKv pv sv Uv && inDomR pu su Uu u && inDomR pv sv Uv v && P.length == su * sv) then return "ERR"
+      let S := surfaceDersR pu pv (fn Uu) (fn Uv) su sv P u v ord (tri == "1")
+      return showPts2 (if rat == "1" then ratSurfaceDers S ord else S)
   | ["bbox", ps] => do
       let P ← parsePts ps
       if P.isEmpty then return "ERR"
@@ -170,6 +190,36 @@ def handleBasic : List String → Option String
       let n := sampleSize dl
       let ks := linspace (fn U p) (fn U P.length) n tolMult
       return showPts (curveGrid (rat == "1") p (fn U) P ks)
+  -- `evaluate_list` / sampled grids through the REPAIRED search (`curveGridR` / `surfaceGridR` / `volumeGridR`)
+  | ["clistr", rat, p, us, ps, params] => do
+      let p ← p.toNat?; let U ← parseList us; let P ← parsePts ps; let ks ← parseList params
+      if !(okKv p P.length U) || ks.any (fun u => !(inDomR p P.length U u)) then return "ERR"
+      return showPts (curveGridR (rat == "1") p (fn U) P ks)
+  | ["cgridr", rat, p, us, ps, delta] => do
+      let p ← p.toNat?; let U ← parseList us; let P ← parsePts ps; let dl ← parseRat delta
+      if !(okKv p P.length U) || dl ≤ 0 || !(domR p P.length U) then return "ERR"
+      let n := sampleSize dl
+      let ks := linspace (fn U p) (fn U P.length) n tolMult
+      return showPts (curveGridR (rat == "1") p (fn U) P ks)
+  | ["sgridr", rat, pu, pv, uus, uvs, su, sv, ps, du, dv] => do
+      let pu ← pu.toNat?; let pv ← pv.toNat?; let Uu ← parseList uus; let Uv ← parseList uvs
+      let su ← su.toNat?; let sv ← sv.toNat?; let P ← parsePts ps; let du ← parseRat du; let dv ← parseRat dv
+      if !(okKv pu su Uu && okKv pv sv Uv && P.length == su * sv) || du ≤ 0 || dv ≤ 0
+          || !(domR pu su Uu) || !(domR pv sv Uv) then return "ERR"
+      let kus := linspace (fn Uu pu) (fn Uu su) (sampleSize du) tolMult
+      let kvs := linspace (fn Uv pv) (fn Uv sv) (sampleSize dv) tolMult
+      return showPts (surfaceGridR (rat == "1") pu pv (fn Uu) (fn Uv) su sv P kus kvs)
+  | ["vgridr", rat, pu, pv, pw, uus, uvs, uws, su, sv, sw, ps, du, dv, dw] => do
+      let pu ← pu.toNat?; let pv ← pv.toNat?; let pw ← pw.toNat?
+      let Uu ← parseList uus; let Uv ← parseList uvs; let Uw ← parseList uws
+      let su ← su.toNat?; let sv ← sv.toNat?; let sw ← sw.toNat?
+      let P ← parsePts ps; let du ← parseRat du; let dv ← parseRat dv; let dw ← parseRat dw
+      if !(okKv pu su Uu && okKv pv sv Uv && okKv pw sw Uw && P.length == su * sv * sw) || du ≤ 0 || dv ≤ 0 || dw ≤ 0
+          || !(domR pu su Uu) || !(domR pv sv Uv) || !(domR pw sw Uw) then return "ERR"
+      let kus := linspace (fn Uu pu) (fn Uu su) (sampleSize du) tolMult
+      let kvs := linspace (fn Uv pv) (fn Uv sv) (sampleSize dv) tolMult
+      let kws := linspace (fn Uw pw) (fn Uw sw) (sampleSize dw) tolMult
+      return showPts (volumeGridR (rat == "1") pu pv pw (fn Uu) (fn Uv) (fn Uw) su sv sw P kus kvs kws)
   | ["clen", rat, p, us, ps, delta, evs, ds] => do
       let p ← p.toNat?; let U ← parseList us; let P ← parsePts ps; let dl ← parseRat delta
       let E ← parsePts evs; let D ← parseList ds
